@@ -23,7 +23,10 @@ table = head + "\n".join(rows) + "\n"
 intro = ("Each directory holds `patch.diff` (applies to /repo HEAD at the time recorded in meta.json), `demo.py` (exits 0 on the "
          "unchanged tree, 1 with the patch) and `meta.json` (what the blind sub-agent reported plus "
          "`confirmed_by_main_session`: demo on the original tree, full test suite with the patch, demo with the patch, and "
-         "the verdict of each check run against it). Re-run one with `tools/seedcheck.py seeded/<id> <id> <CHECK>`.\n\n")
+         "the verdict of each check run against it). Re-run one with `tools/seedcheck.py seeded/<id> <id> <CHECK>`.\n\n"
+         "The suite's live-server fixtures start a subprocess that imports werkzeug from /repo/src whatever `PYTHONPATH` "
+         "says, so every seed's suite run was repeated with a private copy of /venv whose `werkzeug.pth` pointed at the "
+         "seeded tree: all 947 passed, 1 skipped (see DESIGN.md section 9).\n\n")
 open(os.path.join(V, "seeded", "README.md"), "w").write("# Seeded changes (made by blind sub-agents from the property text only)\n\n" + intro + table)
 p = os.path.join(V, "DESIGN.md")
 s = open(p).read()
